@@ -84,7 +84,9 @@ def handle (inp impl : Json) : CaseResult :=
          -- its term counts from the moment it is placed, not from some earlier moment of the handshake
          jnat impl "block_early_ms" == 0
      | none => !(jhas impl "blocked"))
-  let ok := !(jbool impl "panic") && (!admitted || grounds) && blockOk &&
+  -- a peer that had been admitted and whose connection has ended: exactly one disconnect notification
+  let notesOk := !(jhas impl "disconnect_notes") || jnat impl "disconnect_notes" == 1
+  let ok := !(jbool impl "panic") && (!admitted || grounds) && blockOk && notesOk &&
     (admitted || (!(jbool impl "notified") && !(jhas impl "registered"))) && jnat impl "lookups" ≤ 1 &&
     -- a registry lookup happens only after the signature and address checks passed
     (jnat impl "lookups" == 0 || (match inbound, remote with
@@ -98,6 +100,7 @@ def handle (inp impl : Json) : CaseResult :=
       if jbool impl "panic" then "handshake-panicked"
       else if admitted && !grounds then "peer-admitted-without-proof-of-address-role-or-stake"
       else if !blockOk then "failed-handshake-left-the-wrong-block-or-none"
+      else if !notesOk then "not-exactly-one-disconnect-notification-per-removed-peer"
       else if !admitted then "refused-handshake-left-peer-registered-or-announced"
       else "registry-consulted-before-signature-and-address-checks" }
 end Driver.C04
